@@ -14,7 +14,9 @@ import (
 // It is a types.Importer that type-checks dependencies from source; nothing touches the disk or the
 // real standard library.
 type World struct {
-	Src   map[string]string
+	Src map[string]string
+	// Real maps an import string to the package's real path when they differ (vendoring).
+	Real  map[string]string
 	cache map[string]*types.Package
 }
 
@@ -36,7 +38,11 @@ func (w *World) Import(path string) (*types.Package, error) {
 		return nil, err
 	}
 	conf := types.Config{Importer: w}
-	p, err := conf.Check(path, fset, []*ast.File{f}, nil)
+	real := path
+	if r, ok := w.Real[path]; ok {
+		real = r
+	}
+	p, err := conf.Check(real, fset, []*ast.File{f}, nil)
 	if err != nil {
 		return nil, err
 	}
